@@ -43,7 +43,7 @@ m = {
                 {'name': 'apalache', 'path': 'spec/apalache/', 'serves_properties': ['C01'],
                  'kind_free_text': 'supplementary, never a verdict: inductive invariant of the column shrink loop for unbounded widths (bin/apalache_shrink; run with thorough C01 and recorded in its evidence)'}],
     'checks': checks,
-    'notes': 'See DESIGN.md. known_findings.json lists recorded findings and fixed defects. seeded/ holds 140 changes to the library that the checks report (bin/selftest re-runs them on scratch worktrees).',
+    'notes': 'See DESIGN.md. known_findings.json lists recorded findings and fixed defects. seeded/ holds 141 changes to the library that the checks report (bin/selftest re-runs them on scratch worktrees).',
     'not_applicable': na,
 }
 json.dump(m, open(os.path.join(ROOT, 'MANIFEST.json'), 'w'), indent=1)
